@@ -234,7 +234,7 @@ type VMOut struct {
 	Anom   string
 }
 
-const stepLimit = 400000
+var stepLimit int64 = 400000
 
 // offsetOf: exported functions are entered through the MANIFEST entry (name with lower-cased first letter and
 // parameter count), everything else through the debug information's range start.
@@ -280,7 +280,7 @@ func runVM(c *Compiled, sig *Sig, args []any) (o VMOut) {
 		return VMOut{Res: "?no-entry", Anom: "method not found in manifest / debug info"}
 	}
 	v := vm.New()
-	v.SetPriceGetter(func(opcode.Opcode, []byte) int64 { return 1 })
+	v.SetPriceGetter(func(opcode.Opcode, []byte) int64 { return vm.ExecFeeFactorMultiplier }) // one datoshi per instruction: the gas limit is a step limit
 	v.SetGasLimit(stepLimit)
 	v.LoadScriptWithFlags(c.NEF.Script, callflag.All)
 	v.Context().Jump(off)
@@ -296,7 +296,7 @@ func runVM(c *Compiled, sig *Sig, args []any) (o VMOut) {
 		o.Res = "panic"
 		if err != nil {
 			o.Fault = err.Error()
-			if strings.Contains(o.Fault, "gas limit") {
+			if strings.Contains(o.Fault, "GAS limit") {
 				o.Res = "?step-limit"
 			}
 		}
